@@ -760,6 +760,10 @@ class SSHTransportBase(protocol.Protocol):
                         return
                     i = lines.index(p)
                     self.buf = b"\n".join(lines[i + 1 :])
+            if not self.gotVersion:
+                # Only lines that precede the version string so far
+                # (RFC 4253 section 4.2): keep waiting for it.
+                return
         packet = self.getPacket()
         while packet:
             messageNum = ord(packet[0:1])
